@@ -43,6 +43,25 @@ CHECKS = {
          "CalculateRootFromUpdateData, Update, right witnesses at every position and CalculateRootFromAppendPath with the folded terms, and requires tampered leaves/roots/witnesses to be rejected.",
          "Hash injectivity; pairwise distinct leaf data.",
          "TLC-checked TLA+ term model (incremental = batch = declarative) + comparison of the real tree with the exported terms", "DESIGN.md section 4 C11"),
+ "C03": ("model_checking",
+         "Node.tla models the engine (chain, LiskBFT vote state per block, finalized height, temp blocks, events) with Accept(c) = the conjunction of every validity rule of the statement; "
+         "TLC checks its properties exhaustively (chains <= 5-6 blocks, one parameter change) and generates scripts by simulation; the harness replays every step on the real Executer with a toy application "
+         "(state/events compared after each step) and submits, at the end of every script, each of 28 single-rule mutants of the valid successor (header fields, slot, generator, signature, maxHeightPrevoted/Generated, "
+         "7 aggregate-commit deviations, roots, validatorsHash, static tx validity, payload size): each must be rejected leaving the full database dump, BFT heights and published events unchanged.",
+         "Toy application instead of pkg/framework; 3 validators; scripts sampled by TLC simulation (seeded); time pinned mid-slot; cryptography trusted.",
+         "TLC-generated scripts and single-rule mutants of a TLA+ node model replayed on the real Executer", "DESIGN.md section 4 C03"),
+ "C05": ("model_checking",
+         "Same Node scripts: for every DeleteTip the sorted database dump after apply+delete must equal the dump before the apply (finalized marker, temp blocks, data pruned below finality excluded; state diffs compared as sets), "
+         "saved temp blocks must be retrievable, restart must land on the same state, and a chain reached through apply/delete detours must equal the same chain built directly on a fresh node. "
+         "The revert-diff mechanics are additionally checked at key level (created/overwritten/deleted in one commit, empty values) through the StagedStore trace monitor (commit / revert steps).",
+         "Toy application; blocks with/without transactions, validator-set change, aggregate commits, finality advances; scripts sampled by TLC simulation.",
+         "TLC-generated apply/delete/restart scripts replayed on the real Executer with database-dump equality + TLA+ trace monitor of diff reversal", "DESIGN.md section 4 C05"),
+ "C08": ("model_checking",
+         "Wire.tla is a TLA+ reference codec for the LIP-0027/0064 wire format (integers as base-128 digit sequences, so the uint64 range is covered); TLC checks round trip and canonicity of strict decoding exhaustively over "
+         "short byte strings, generates the product of per-field deviation classes for the transaction schema with the expected verdict, and the Lisk32 checksum tables; the harness logs Encode/Decode/DecodeStrict of all 88 exported generated-codec types "
+         "(validated by TLC against the reference codec), feeds every deviant byte string to NewTransaction/DecodeStrict, and checks ID stability through store/load.",
+         "Values of the generated types are sampled (seeded) apart from the exhaustive short-string / deviant / Lisk32-corruption spaces; Unicode NFC tables and SHA-256 trusted; unexported codec types unreachable.",
+         "TLA+ reference codec checked by TLC + trace validation of the real codec + TLC-generated deviant encodings", "DESIGN.md section 4 C08"),
 }
 NA_REASON = "check not built yet in this round (planned, see DESIGN.md section 4); not claimed until its TLA+ specification and binding exist"
 
